@@ -17,6 +17,18 @@ CHECKS = {
  "C04": dict(cat="exploration", tech="proptest shape-library datasets x config (pretty/stream, prefix maps, indentation, Turtle/TriG); parse-back + exact isomorphism oracle; abbreviation tokenizer for non-triviality",
    text="Datasets assembled from blank-node shapes, well-/ill-formed rdf lists, annotations, shorthand-literal candidates and awkward local names; output must parse with the strict parser, contain no duplicate statement and be exactly isomorphic (backtracking search) to the input.",
    note="Trusted: sophia's own strict Turtle/TriG parser as syntax judge, iso.rs exact isomorphism (budgeted; budget never hit). Generalized RDF and duplicate prefixes out of scope.", ref="5/C04, 11"),
+ "C01": dict(cat="exploration", tech="proptest operation histories on 35 store types vs multiset/set reference model incl. term-index capacity model (stateful model-based)",
+   text="Random histories (insert/remove/bulk/pattern mutations/rebuild/queries with all 2^4 bound shapes and every matcher kind) run on every shipped store type (fast/light, u16/u32/tiny index, graph/dataset, hash/btree/vec) and compared after each step with a reference set/list model; index-full behaviour modelled exactly for tiny and 16-bit indexes (boundary scenarios pre-fill ~65535 terms).",
+   note="Trusted: pat.rs model of matcher semantics, capacity/ensure-order model read from the code, MT conversions. Vec flags not judged (documented as not significant).", ref="5/C01, 11"),
+ "C02": dict(cat="exploration", tech="proptest near-miss term triples realised in 25-45 Term implementations each; pairwise eq/cmp/hash vs documented model order (differential across implementations)",
+   text="Model terms and near-miss mutants realised in every nameable shipped Term implementation (incl. parser-backed, JSON-LD, c14n, NsTerm splits); all ordered pairs compared for Term::eq/cmp/hash and std trait impls against the model relation; conversions must yield equal terms.",
+   note="Trusted: model.rs equality/order (from Term::eq/cmp docs). IsoTerm is private and not covered; C14nTerm only for atoms.", ref="5/C02, 11"),
+ "C10": dict(cat="exploration", tech="proptest clone/drop/swap/move/grow histories with self-containment audit hook + per-store reference models; thorough: same histories replayed under AddressSanitizer in child processes",
+   text="Histories over an arena of stores interleaving mutation with clone, clone_from, drop, mem::swap, moves and growth; after every step each live store must pass the i2t-borrows-from-own-keys audit (hook) and equal its own model; thorough tier replays under ASan (any report = failure).",
+   note="Trusted: the audit hook (feature verif_hooks), ASan only sees addressability errors on executed paths; no Miri. If the ASan build is unavailable the thorough tier is inconclusive (exit 2), never a violation.", ref="5/C10, 7, 11"),
+ "C20": dict(cat="exploration", tech="proptest native values and typed literals; XSD lexical recognisers + exact big-integer decimal->binary rounding oracle; round trips through 17 representations and 10 serialiser/parser pairs",
+   text="Every edge value and uniform samples of i32/isize/usize/bool/f64/str as terms: lexical form must be in the XSD lexical space, value must come back identical through every representation and NT/NQ/Turtle/TriG/RDF-XML/JSON-LD round trips; arbitrary literals: conversions never panic and successes equal an independent exact parse.",
+   note="Trusted: harness XSD recognisers and exact rounding oracle. Ill-typed lexicals accepted by a conversion are counted, not failed.", ref="5/C20, 11"),
 }
 NOT_APPLICABLE = []
 def main():
